@@ -66,7 +66,7 @@ impl FileSystemPackageResolver {
                         #[cfg(feature = "wat")]
                         {
                             path.set_extension("wat");
-                            if !path.exists() {
+                            if !path.is_file() {
                                 path.set_extension("wasm");
                             }
                         }
